@@ -50,6 +50,11 @@ func (c *EventCache) Add(event *Event) (added bool) {
 	c.mu.Lock()
 	defer c.mu.Unlock()
 
+	if event.EventType() == EventTypeEphemeral {
+		// ephemeral events are accepted but never stored
+		return true
+	}
+
 	eventKey := c.getEventKey(event)
 
 	if c.isDeleted(eventKey, event.Pubkey) {
@@ -212,12 +217,9 @@ func (c *EventCache) getEventKey(event *Event) string {
 		idx := slices.IndexFunc(event.Tags, func(t Tag) bool {
 			return len(t) >= 1 && t[0] == "d"
 		})
-		if idx < 0 {
-			return ""
-		}
-
+		// a missing d tag is the same as an empty d value
 		d := ""
-		if len(event.Tags[idx]) > 1 {
+		if idx >= 0 && len(event.Tags[idx]) > 1 {
 			d = event.Tags[idx][1]
 		}
 
